@@ -1,9 +1,17 @@
 (* Run/RunC02.v — Searcher::search_reader (ReadByLine strategy) for the driver.
    case: (cfg matcher input reply cap pol hist)
      pol  = () eager growth | (extra)  BufferAllocation::Error(extra)
-     hist = list of (0 n) chunk of at most n bytes | (1) read error | (2) interrupted *)
+     hist = list of (0 n) chunk of at most n bytes | (1) read error | (2) interrupted
+   kind 206 (one REUSED Searcher): (cfg matcher cap sources)
+     sources = list of (tag input hist reply)
+       tag   = 0 search_slice | 1 search_reader | 2 search_file with a memory map | 3 search_file without
+       hist  = as above: the reads seen by the roll buffer (ignored by the slice and multi-line strategies)
+       reply = as in Run/RunC03.v (absent or () = the sink always continues)
+     result  = list of results (Run/RunC03.v of_result), one per source, in order.
+     No transcoding (encoding None, bom_sniffing off: decode = identity), binary detection None,
+     heap limit None. *)
 From RG Require Import Base.Bytes Base.Val Model.Lines Model.SearcherCore Model.Glue Model.ScriptedMatcher
-  Model.ReadByLine Run.RunC03.
+  Model.ReadByLine Model.SearcherGlue Run.RunC03.
 
 Definition decode_pol (v : val) : alloc_policy :=
   match as_list v with [] => AEager | x :: _ => AError (as_nat x) end.
@@ -22,8 +30,27 @@ Definition run_reader (v : val) : val :=
   else of_result (read_by_line_run cfg M (decode_reply (fld 3 v)) (decode_pol (fld 5 v))
                                    (as_nat (fld 4 v)) (as_bytes (fld 2 v)) (decode_hist (fld 6 v))).
 
+(* kind 206 *)
+Definition decode_source (v : val) : source * (nat -> reply) :=
+  let s := as_bytes (fld 1 v) in
+  let h := decode_hist (fld 2 v) in
+  ((match as_N (fld 0 v) with
+    | 0%N => SrcSlice s
+    | 1%N => SrcReader s h
+    | 2%N => SrcFile true s h
+    | _ => SrcFile false s h
+    end), decode_reply (fld 3 v)).
+
+Definition run_search_seq (v : val) : val :=
+  let cfg := decode_cfg (fld 0 v) in
+  let M := decode_matcher cfg (fld 1 v) in
+  of_list of_result
+    (fst (search_seq cfg M false false (fun b => b) (ss_new (as_nat (fld 2 v)))
+                     (map decode_source (as_list (fld 3 v))))).
+
 Definition entry (k : N) (v : val) : option val :=
   match k with
   | 201%N => Some (run_reader v)
+  | 206%N => Some (run_search_seq v)
   | _ => None
   end.
